@@ -76,6 +76,14 @@ for c in man["checks"]:
             err(f"{pid}: proof level needs discharged == obligations >= 1, got {d} / {n}")
         if cov.get("refuted"):
             err(f"{pid}: proof level with refuted obligations {cov['refuted']}")
+    elif ev["level"] in ("exploration", "fault_enumeration"):
+        # bounded stand-in only: generic keys, nothing counted as discharged
+        if cov.get("evaluations", 0) < 1 or cov.get("distinct_nontrivial", 0) < 2 or not cov.get("rule"):
+            err(f"{pid}: exploration level needs evaluations >= 1, distinct_nontrivial >= 2 and a rule")
+        if d != 0 or n != 0:
+            err(f"{pid}: exploration level must not count obligations as discharged ({d} / {n})")
+        if any(b.get("status") != "proved" for b in cov.get("bounded_checks", [])):
+            err(f"{pid}: a bounded check did not hold: {[b.get('name') for b in cov.get('bounded_checks', []) if b.get('status') != 'proved']}")
     else:
         known = cov.get("known_findings_matched", [])
         if sorted(cov.get("refuted", [])) != sorted(known):
